@@ -1732,6 +1732,29 @@ def deep_check(sc):
         tv = list(itertools.islice(find(path.rec[has(path.bottom)].zero, doc, trace=count), 3))
         if tv != [0]:
             return f"traced find(path.rec[has(path.bottom)].zero) on a document of depth {depth} yields {tv!r}", True
+        # a predicate that raises on the deepest container: TraversingError chained to what it raised
+        from treepath import TraversingError, pop, set_
+
+        class _DeepBoom(Exception):
+            pass
+
+        def boom_at_leaf(x):
+            if isinstance(x.data, dict) and "bottom" in x.data:
+                raise _DeepBoom()
+            return False
+        try:
+            r = list(itertools.islice(find_matches(path.rec[boom_at_leaf], doc), 2))
+            return f"a predicate raising at depth {depth} was swallowed ({len(r)} results)", True
+        except TraversingError as e:
+            if not isinstance(e.__cause__, _DeepBoom):
+                return f"TraversingError at depth {depth} is chained to {type(e.__cause__).__name__}, not to what the predicate raised", True
+        # the writers at the bottom of a deep document
+        if set_(path.bottom, 2, leafm) != 2 or leaf["bottom"] != 2:
+            return f"set_(path.bottom, <deep match>) at depth {depth} did not assign", True
+        if pop(path.rec.bottom, doc) != 2 or "bottom" in leaf:
+            return f"pop(path.rec.bottom) at depth {depth} did not remove the entry", True
+        if pop(path.rec.bottom, doc, default="gone") != "gone":
+            return f"pop with a default at depth {depth}", True
     except RecursionError:
         return f"RecursionError on a document of depth {depth} ({kind})", True
     except TreepathException as e:
